@@ -218,7 +218,14 @@ func symBinop(op token.Token, t types.Type, x, y value) value {
 		if b.w < a.w {
 			b = &sym{k: sBV, w: a.w, e: fmt.Sprintf("((_ zero_extend %d) %s)", a.w-b.w, b.e)}
 		} else if b.w > a.w {
-			panic(unsupported("shift count wider than operand"))
+			// count wider than the operand: if any high bit of the count is set the shift is >= the
+			// operand's width anyway (result 0, or sign fill for an arithmetic right shift); otherwise
+			// shift by the low bits
+			hi := fmt.Sprintf("((_ extract %d %d) %s)", b.w-1, a.w, b.e)
+			lo := &sym{k: sBV, w: a.w, e: fmt.Sprintf("((_ extract %d 0) %s)", a.w-1, b.e)}
+			big := &sym{k: sBool, e: fmt.Sprintf("(not (= %s #b%s))", hi, strings.Repeat("0", b.w-a.w))}
+			full := bvLit(uint64(a.w), a.w)
+			b = mkIte(big, full, lo)
 		}
 	} else {
 		b = litOf(y)
